@@ -334,7 +334,7 @@ func TestC12(t *testing.T) {
 	rc.DistinctSalience = true
 	rc.MinRules, rc.MaxRules, rc.ExprDepth, rc.MaxActions = 1, 3, 2, 2
 	cfg := rsGenCfg{Rules: rc, Vary: true}
-	check(t, 0, budget(160, 1600), func(rt *rapid.T) {
+	check(t, 0, budget(160, 480), func(rt *rapid.T) {
 		c, rs := genRSCase(rt, cfg)
 		cc := &c12Case{Run: toRSCase(c)}
 		cc.States = append(cc.States, c.Init)
